@@ -124,6 +124,15 @@ def main():
             calls.append(("SCSIDevice", dev, rw, None))
         calls.append(("ISCSIDevice", dev, None, "iqn.1999-01.x:explicit"))
         calls.append(("ISCSIDevice", dev, None, None))
+    # call order: the same calls in four different orders (one process each), so that a factory remembering something from an
+    # earlier call (a cached default, a handle, a name) is seen whichever way round the calls come
+    order = int(sys.argv[4]) if len(sys.argv) > 4 else 0
+    if order == 1:
+        calls.reverse()
+    elif order == 2:
+        calls.sort(key=lambda c: (c[3] is None, c[0], c[1], str(c[2])))       # explicit initiator names first
+    elif order == 3:
+        calls = calls[1::2] + calls[0::2]
     for (fn, dev, rw, ini) in calls:
         v = []
         del OPENS[:]
